@@ -485,6 +485,10 @@ def classify(p, ref, boa, probe=None):
                 tail.append(st_[0])
             if tail and all(t in ("SDecl", "SFunDecl", "SClassDecl", "SEmpty") for t in tail):
                 return "completion-value-lost-after-declaration"
+        if rc == 'V:undefined:"undefined"' and bc.startswith("V:"):
+            # a stale value is KEPT: the statement that determines the completion value (if / loop / switch / try / with, whose empty
+            # result must become undefined) does not overwrite what an earlier nested statement stored
+            return "completion-value-stale-kept"
         if has(p, "SDirectEval") or p.get("meta", {}).get("form") == "script":
             return "completion-value"
         return "completion"
